@@ -292,8 +292,7 @@ func (v *FnVC) loadAddr(st *State, a *Addr) Val {
 		}
 		return Val{T: t, Typ: a.Typ}
 	case "elem":
-		h := v.heap(st, a.Heap, HeapSort(sortOf(a.Typ)))
-		return Val{T: Select(Select(h, a.Ref), a.Idx), Typ: a.Typ}
+		return Val{T: Select(v.readArray(st, a.Typ, a.Ref), a.Idx), Typ: a.Typ}
 	case "field", "cell":
 		if _, ok := a.Typ.Underlying().(*types.Struct); ok {
 			unsupported("load of a whole struct through a pointer")
@@ -405,8 +404,7 @@ func (v *FnVC) execInstr(in ssa.Instruction, st *State) {
 		if isString(in.X.Type()) {
 			n := v.ord("index")
 			v.oblige("index", fmt.Sprintf("index#%d", n), v.curGuard, And(Le(IntLit(0), i), Lt(i, SLen(x.T))), v.posOf(in.Pos()), "string index in range")
-			h := v.heap(st, sliceHeap(types.Typ[types.Uint8]), HeapSort(SInt))
-			r := Select(Select(h, SRef(x.T)), Add(SOff(x.T), i))
+			r := Select(v.readArray(st, types.Typ[types.Uint8], SRef(x.T)), Add(SOff(x.T), i))
 			v.assume(v.curGuard, v.typeInv(r, types.Typ[types.Uint8], st), "type")
 			v.regs[in] = Val{T: r, Typ: in.Type()}
 			return
@@ -760,7 +758,7 @@ func (v *FnVC) bitop(op token.Token, x, y *Term, ii intInfo, pos token.Pos) *Ter
 		}
 		return v.define("bit8", sum)
 	}
-	name := map[token.Token]string{token.AND: "bvand", token.OR: "bvor", token.XOR: "bvxor", token.AND_NOT: "bvandnot"}[op]
+	name := map[token.Token]string{token.AND: "int_and", token.OR: "int_or", token.XOR: "int_xor", token.AND_NOT: "int_andnot"}[op]
 	v.g.needBitFns = true
 	r := v.define(name, App(name, SInt, x, y))
 	nonneg := And(Ge(x, IntLit(0)), Ge(y, IntLit(0)))
@@ -977,6 +975,7 @@ func (v *FnVC) run() {
 	for _, b := range v.cfg.Order {
 		var st *State
 		var reach *Term
+		v.curBlock = b
 		if b == fn.Blocks[0] {
 			st = v.entry.clone()
 			reach = True
@@ -1006,6 +1005,18 @@ func (v *FnVC) run() {
 				conds = append(conds, e.cond)
 			}
 			reach = v.define(fmt.Sprintf("reach_b%d", b.Index), Or(conds...))
+			if len(conds) > 1 && len(conds) <= 6 {
+				v.blockCases[b] = conds
+			} else if len(ins) == 1 {
+				// single predecessor: inherit its case split
+				for _, p := range b.Preds {
+					if _, ok := v.edges[[2]int{p.Index, b.Index}]; ok && !v.cfg.BackEdge[[2]int{p.Index, b.Index}] {
+						if cs := v.blockCases[p]; cs != nil && v.cfg.LoopOf[b] == nil {
+							v.blockCases[b] = cs
+						}
+					}
+				}
+			}
 			st = v.mergeStates(b, ins)
 			// phis
 			for _, in := range b.Instrs {
